@@ -177,33 +177,80 @@ def run(ch: Checker) -> None:
     line, headers, body = bp.params[0], bp.params[1], bp.params[2]
     bad4 = None
     n4 = 0
+    def _flat(e: ast.AST) -> List[ast.AST]:
+        if isinstance(e, ast.BinOp) and isinstance(e.op, ast.Add):
+            return _flat(e.left) + _flat(e.right)
+        return [e]
+
+    def _is_header_call(e: ast.AST, kname: str, vname: str) -> bool:
+        return isinstance(e, ast.Call) and attr_chain(e.func) == 'build_http_header' and len(e.args) == 2 and norm(e.args[0]) == kname and norm(e.args[1]) == vname
+
     for p in fpaths(gp):
         if p.exit_kind != 'return':
             continue
         n4 += 1
         sym = Sym(p)
-        seq: List[str] = []
-        for i, n_, lab in p.executed():
-            st = n_.ast
-            if n_.kind == 'stmt' and isinstance(st, ast.Assign) and norm(st.targets[0]) == 'pkt':
-                seq.append('init:' + norm(st.value))
-            if n_.kind == 'stmt' and isinstance(st, ast.AugAssign) and norm(st.target) == 'pkt' and isinstance(st.op, ast.Add):
-                seq.append('add:' + norm(st.value))
-            if n_.kind == 'for' and lab == 'iter':
-                seq.append('loop:' + norm(st.iter) + ':' + norm(st.target))  # type: ignore[union-attr]
+        last_i, last = p.stmts()[-1]
+        if not (isinstance(last, ast.Return) and last.value is not None):
+            bad4 = ('build_http_pkt returns nothing on a path', p.describe(20))
+            continue
+        class _DropDefault(ast.NodeTransformer):
+            """`headers or {}` (the defaulting of the parameter) is the header map itself for the purpose of this rule"""
+            def visit_BoolOp(self, n: ast.BoolOp) -> ast.AST:
+                self.generic_visit(n)
+                if isinstance(n.op, ast.Or) and len(n.values) == 2 and isinstance(n.values[0], ast.Name) and n.values[0].id == headers and isinstance(n.values[1], ast.Dict) and not n.values[1].keys:
+                    return n.values[0]
+                return n
+        parts = _flat(ast.fix_missing_locations(_DropDefault().visit(sym.value(last.value, last_i))))
+        txt = [norm(x) for x in parts]
         facts = allfacts(p)
-        want = ['init:WHITESPACE.join(%s) + CRLF' % line]
-        looped = [s for s in seq if s.startswith('loop:')]
-        if looped:
-            want += ['loop:%s.items():(k, v)' % headers, 'add:build_http_header(k, v) + CRLF']
-        want += ['add:CRLF']
-        if facts.get(body) is True:
-            want += ['add:%s' % body]
-        if [s.replace(' ', '') for s in seq] != [s.replace(' ', '') for s in want]:
-            bad4 = ('packet assembled as %s, expected %s' % (seq, want), p.describe(20))
-        last = p.stmts()[-1][1]
-        if not (isinstance(last, ast.Return) and norm(last.value) == 'pkt'):
-            bad4 = ('build_http_pkt returns %s' % norm(last)[:60], p.describe(20))
+        prob = None
+        i = 0
+        # start line
+        if not (i < len(parts) and txt[i].replace(' ', '') == 'WHITESPACE.join(%s)' % line):
+            prob = 'the packet does not start with WHITESPACE.join(%s)' % line
+        i += 1
+        if prob is None and not (i < len(parts) and ce.try_eval(m, parts[i]) == b'\r\n'):
+            prob = 'the start line is not followed by CRLF'
+        i += 1
+        # header lines: loop iterations (one per enumerated iteration) or one join over all of them
+        while prob is None and i < len(parts):
+            e = parts[i]
+            it_k = '__iter__(%s.items())[0]' % headers
+            it_v = '__iter__(%s.items())[1]' % headers
+            if _is_header_call(e, it_k, it_v) and i + 1 < len(parts) and ce.try_eval(m, parts[i + 1]) == b'\r\n':
+                i += 2
+                continue
+            if isinstance(e, ast.Call) and isinstance(e.func, ast.Attribute) and e.func.attr == 'join' and ce.try_eval(m, e.func.value) == b'' and len(e.args) == 1 \
+                    and isinstance(e.args[0], (ast.ListComp, ast.GeneratorExp)) and len(e.args[0].generators) == 1 and not e.args[0].generators[0].ifs:
+                gen = e.args[0].generators[0]
+                di = dict_iter(gen.target, gen.iter, headers)
+                fl = _flat(e.args[0].elt)
+                if di is None and norm(gen.iter) == '{}.items()' and isinstance(gen.target, ast.Tuple) and len(gen.target.elts) == 2:
+                    # the header map was found empty and replaced by {} on this path: no header lines
+                    di = {'view': 'items', 'snapshot': False, 'key': norm(gen.target.elts[0]), 'value': norm(gen.target.elts[1])}
+                if di is not None and di.get('view') == 'items' and not di.get('snapshot') and len(fl) == 2 and _is_header_call(fl[0], di['key'], di['value']) and ce.try_eval(m, fl[1]) == b'\r\n':
+                    i += 1
+                    continue
+            break
+        if prob is None and not (i < len(parts) and ce.try_eval(m, parts[i]) == b'\r\n'):
+            prob = 'the header section is not closed by exactly one blank line (CRLF) after the header lines (found %s)' % (txt[i] if i < len(parts) else 'nothing')
+        i += 1
+        rest = txt[i:]
+        if prob is None:
+            if facts.get(body) is True:
+                if rest != [body]:
+                    prob = 'with a body the packet ends in %s, not in the body as given' % rest
+            elif rest:
+                prob = 'something (%s) follows the blank line although there is no body' % rest
+        if prob:
+            bad4 = ('%s (packet = %s)' % (prob, ' + '.join(txt)[:200]), p.describe(20))
+    # the loop form must walk the header map itself, in its own order
+    for l in walk_no_nested(bp.node):
+        if isinstance(l, ast.For) and any(isinstance(c, ast.Call) and attr_chain(c.func) == 'build_http_header' for c in ast.walk(l)):
+            di = dict_iter(l.target, l.iter, headers)
+            if di is None or di.get('snapshot') or di.get('view') != 'items':
+                bad4 = bad4 or ('header lines are produced from %s, not from %s.items() in map order' % (norm(l.iter), headers), [])
     ch.check(bad4 is None and n4 > 0, 'C02.4', bp, 'assembly order', 'start line, headers, blank line, body on %d path(s)' % n4, bad4[0] if bad4 else '', witness=bad4[1] if bad4 else None)
 
     # ---------------- C02.5
